@@ -55,7 +55,12 @@ class MIADistinguisherMixin(_PartitionnedDistinguisherBaseMixin):
             for trace_idx in range(traces.shape[0]):
                 x = traces[trace_idx, sample_idx]
                 if x >= min_edge and x < max_edge:
-                    bin_idx = int((x - min_edge) * norm)
+                    bin_idx = min(int((x - min_edge) * norm), nbins - 1)
+                    # Because of rounding, the scaled position can be off by one around a bin edge.
+                    if x < self_bin_edges[bin_idx]:
+                        bin_idx -= 1
+                    elif x >= self_bin_edges[bin_idx + 1]:
+                        bin_idx += 1
                 elif x == max_edge:
                     bin_idx = nbins - 1
                 else:
